@@ -1,5 +1,7 @@
-import RecipeGrid.Model.Markdown
-/-! C18 — title and serving count are read from the heading as documented. -/
+import RecipeGrid.Lemmas.Markdown
+/-! C18 — title and serving count are read from the heading as documented.
+    The vocabulary of the specification (`SpaceRun`, `CiWord`, `PhraseText`, `CaseVariantOf`, `ServingMatch`)
+    is defined, with comments, in `Lemmas/Markdown.lean`. -/
 namespace RG.C18
 
 /-- only a first, level-1 heading without markup or placeholder can give a title -/
@@ -19,5 +21,169 @@ theorem documented_phrases_accepted : ∀ p ∈ Gen.documentedPhrases, p ∈ Gen
 /-- every accepted phrase is a non-empty sequence of non-empty lower-case ASCII words -/
 theorem phrases_wellformed : ∀ p ∈ Gen.servingPhrases, p ≠ [] ∧ ∀ w ∈ p, w ≠ "" ∧ w.toList.all (fun c => 'a' ≤ c ∧ c ≤ 'z') = true := by
   decide
+
+/-! ## C18.2 the serving suffix -/
+
+/-- the documented shape of a serving suffix: spaces, a phrase (the words of an accepted phrase, any letter case,
+    separated by spaces), spaces, digits, optional spaces, end -/
+def IsServingSuffix (s : Str) : Prop :=
+  ∃ sp ph sp2 ds sp3, s = sp ++ ph ++ sp2 ++ ds ++ sp3 ∧
+    sp ≠ [] ∧ (∀ c ∈ sp, isReSpace c = true) ∧
+    (∃ p ∈ Gen.servingPhrases, PhraseText p ph) ∧
+    sp2 ≠ [] ∧ (∀ c ∈ sp2, isReSpace c = true) ∧
+    ds ≠ [] ∧ (∀ c ∈ ds, isDigit c = true) ∧ (∀ c ∈ sp3, isReSpace c = true)
+
+/-- a match of the pattern at the very start of `s`, with its three groups: exactly the documented shape.
+    (`ServingMatch` is the same decomposition as `IsServingSuffix` with the groups named.) -/
+theorem matchServingsAt_iff (s sp prep ds : Str) :
+    matchServingsAt s = some (sp, prep, ds) ↔
+      ∃ p ∈ Gen.servingPhrases, ∃ ph sp2 tail, s = sp ++ prep ++ ds ++ tail ∧ prep = ph ++ sp2 ∧
+        SpaceRun sp ∧ PhraseText p ph ∧ SpaceRun sp2 ∧ ds ≠ [] ∧ (∀ c ∈ ds, isDigit c = true) ∧
+        (∀ c ∈ tail, isReSpace c = true) :=
+  ⟨fun h => (matchServingsAt_sound h).ex, fun h => matchServingsAt_complete ⟨h⟩⟩
+
+/-- the pattern matches at the start of `s` exactly when `s` is a serving suffix -/
+theorem matchServingsAt_isSome_iff (s : Str) : (matchServingsAt s).isSome = true ↔ IsServingSuffix s := by
+  constructor
+  · intro h
+    obtain ⟨⟨sp, prep, ds⟩, hm⟩ := Option.isSome_iff_exists.mp h
+    obtain ⟨p, hp, ph, sp2, tail, hs, rfl, hsp, hph, hsp2, hne, hdig, htail⟩ := (matchServingsAt_sound hm).ex
+    exact ⟨sp, ph, sp2, ds, tail, by simp [hs], hsp.1, hsp.2, ⟨p, hp, hph⟩, hsp2.1, hsp2.2, hne, hdig, htail⟩
+  · rintro ⟨sp, ph, sp2, ds, tail, hs, h1, h2, ⟨p, hp, hph⟩, h3, h4, hne, hdig, htail⟩
+    have := matchServingsAt_complete (s := s) (sp := sp) (prep := ph ++ sp2) (ds := ds)
+      ⟨p, hp, ph, sp2, tail, by simp [hs], rfl, ⟨h1, h2⟩, hph, ⟨h3, h4⟩, hne, hdig, htail⟩
+    simp [this]
+
+/-- soundness: whatever `searchServings` returns is a decomposition of the text whose remainder is a serving suffix -/
+theorem searchServings_sound (text before space prep ds : Str)
+    (h : searchServings text = some (before, space, prep, ds)) :
+    ∃ tail, text = before ++ space ++ prep ++ ds ++ tail ∧ (∀ c ∈ tail, isReSpace c = true) ∧
+      space ≠ [] ∧ (∀ c ∈ space, isReSpace c = true) ∧ ds ≠ [] ∧ (∀ c ∈ ds, isDigit c = true) ∧
+      ∃ p ∈ Gen.servingPhrases, ∃ ph sp2, prep = ph ++ sp2 ∧ PhraseText p ph ∧ SpaceRun sp2 := by
+  obtain ⟨n, _, hb, hm, _⟩ := searchServingsAux_eq_some h
+  obtain ⟨p, hp, ph, sp2, tail, hs, hprep, hsp, hph, hsp2, hne, hdig, htail⟩ := (matchServingsAt_sound hm).ex
+  refine ⟨tail, ?_, htail, hsp.1, hsp.2, hne, hdig, p, hp, ph, sp2, hprep, hph, hsp2⟩
+  have : text = text.take n ++ text.drop n := (List.take_append_drop n text).symm
+  rw [this, hs, hb]
+  simp
+
+/-- the remainder after `before` is a serving suffix -/
+theorem searchServings_sound_suffix (text before space prep ds : Str)
+    (h : searchServings text = some (before, space, prep, ds)) :
+    ∃ suffix, text = before ++ suffix ∧ IsServingSuffix suffix := by
+  obtain ⟨tail, ht, htail, h1, h2, h3, h4, p, hp, ph, sp2, rfl, hph, hsp2⟩ := searchServings_sound _ _ _ _ _ h
+  exact ⟨space ++ ph ++ sp2 ++ ds ++ tail, by simp [ht],
+    space, ph, sp2, ds, tail, rfl, h1, h2, ⟨p, hp, hph⟩, hsp2.1, hsp2.2, h3, h4, htail⟩
+
+/-- … and it is the LEFTMOST one: the match starts at offset `before.length`, and at no earlier offset does the
+    pattern match (no earlier remainder of the text is a serving suffix) -/
+theorem searchServings_leftmost (text before space prep ds : Str)
+    (h : searchServings text = some (before, space, prep, ds)) :
+    before = text.take before.length ∧
+    matchServingsAt (text.drop before.length) = some (space, prep, ds) ∧
+    ∀ k, k < before.length → matchServingsAt (text.drop k) = none ∧ ¬ IsServingSuffix (text.drop k) := by
+  obtain ⟨n, hn, hb, hm, hlt⟩ := searchServingsAux_eq_some h
+  simp only [List.reverse_nil, List.nil_append] at hb
+  have hlen : before.length = n := by rw [hb, List.length_take]; omega
+  rw [hlen]
+  refine ⟨hb, hm, fun k hk => ⟨hlt k hk, ?_⟩⟩
+  rw [← matchServingsAt_isSome_iff, hlt k hk]
+  simp
+
+theorem searchServings_none_iff (text : Str) :
+    searchServings text = none ↔ ∀ k, matchServingsAt (text.drop k) = none :=
+  searchServingsAux_eq_none
+
+/-- no serving count is found exactly when no remainder of the text is a serving suffix -/
+theorem searchServings_none_iff_no_suffix (text : Str) :
+    searchServings text = none ↔ ∀ k, ¬ IsServingSuffix (text.drop k) := by
+  rw [searchServings_none_iff]
+  constructor
+  · intro h k
+    rw [← matchServingsAt_isSome_iff, h k]; simp
+  · intro h k
+    have := h k
+    rw [← matchServingsAt_isSome_iff] at this
+    simpa using this
+
+/-- completeness: a text that ends in a serving suffix, with no serving suffix starting earlier, is split there -/
+theorem searchServings_complete (before sp ph sp2 ds tail : Str) (p : List String) (hp : p ∈ Gen.servingPhrases)
+    (hsp : SpaceRun sp) (hph : PhraseText p ph) (hsp2 : SpaceRun sp2) (hne : ds ≠ [])
+    (hdig : ∀ c ∈ ds, isDigit c = true) (htail : ∀ c ∈ tail, isReSpace c = true)
+    (hfirst : ∀ k, k < before.length → matchServingsAt ((before ++ sp ++ ph ++ sp2 ++ ds ++ tail).drop k) = none) :
+    searchServings (before ++ sp ++ ph ++ sp2 ++ ds ++ tail) = some (before, sp, ph ++ sp2, ds) := by
+  have hm : matchServingsAt ((before ++ sp ++ ph ++ sp2 ++ ds ++ tail).drop before.length) = some (sp, ph ++ sp2, ds) := by
+    have : (before ++ sp ++ ph ++ sp2 ++ ds ++ tail).drop before.length = sp ++ (ph ++ sp2) ++ ds ++ tail := by
+      simp [List.append_assoc]
+    rw [this]
+    exact matchServingsAt_complete ⟨p, hp, ph, sp2, tail, rfl, rfl, hsp, hph, hsp2, hne, hdig, htail⟩
+  have := searchServingsAux_of_first (acc := []) hm hfirst
+  simpa [searchServings, List.append_assoc] using this
+
+/-- C18.1 completeness for the documented forms: a title `T` (with no earlier match inside it) followed by spaces,
+    a documented phrase in ANY letter case, spaces and a number `n` is split into `T` and `n` -/
+theorem documented_forms_recognised (T sp1 sp2 : Str) (ph : List String) (phText : Str) (n : Nat)
+    (hph : ph ∈ Gen.documentedPhrases) (hcase : CaseVariantOf ph phText)
+    (hsp1 : SpaceRun sp1) (hsp2 : SpaceRun sp2)
+    (hT : ∀ k, k < T.length → matchServingsAt ((T ++ sp1 ++ phText ++ sp2 ++ natDigits n).drop k) = none) :
+    searchServings (T ++ sp1 ++ phText ++ sp2 ++ natDigits n) = some (T, sp1, phText ++ sp2, natDigits n) := by
+  have hp := documented_phrases_accepted ph hph
+  have := searchServings_complete T sp1 phText sp2 (natDigits n) [] ph hp hsp1
+    (CaseVariantOf.phraseText (servingPhrases_wf ph hp).2 hcase) hsp2 (natDigits_ne_nil n) (natDigits_isDigit' n)
+    (by simp) (by simpa using hT)
+  simpa using this
+
+/-- the side condition of `documented_forms_recognised` holds when the title contains no space at all -/
+theorem documented_forms_recognised_word (T sp1 sp2 : Str) (ph : List String) (phText : Str) (n : Nat)
+    (hph : ph ∈ Gen.documentedPhrases) (hcase : CaseVariantOf ph phText)
+    (hsp1 : SpaceRun sp1) (hsp2 : SpaceRun sp2) (hT : ∀ c ∈ T, isReSpace c = false) :
+    searchServings (T ++ sp1 ++ phText ++ sp2 ++ natDigits n) = some (T, sp1, phText ++ sp2, natDigits n) := by
+  apply documented_forms_recognised T sp1 sp2 ph phText n hph hcase hsp1 hsp2
+  intro k hk
+  have hd : (T ++ sp1 ++ phText ++ sp2 ++ natDigits n).drop k = T[k] :: (T.drop (k + 1) ++ sp1 ++ phText ++ sp2 ++ natDigits n) := by
+    simp only [List.append_assoc]
+    rw [List.drop_append_of_le_length (by omega), List.drop_eq_getElem_cons hk]
+    rfl
+  rw [hd]
+  simp [matchServingsAt, spaces1, hT T[k] (by simp)]
+
+/-- the serving count read back is `n` -/
+theorem natOfDigitChars_natDigits (n : Nat) : natOfDigitChars (natDigits n) = n :=
+  digitsVal_natDigits n
+
+/-- end to end: such a first level-1 heading (no markup, containing none of the placeholders issued so far) is a
+    scalable title with serving count `n`; the title is everything before the phrase -/
+theorem heading_documented_form (T sp1 sp2 : Str) (ph : List String) (phText : Str) (n : Nat) (phs : List Str)
+    (hph : ph ∈ Gen.documentedPhrases) (hcase : CaseVariantOf ph phText)
+    (hsp1 : SpaceRun sp1) (hsp2 : SpaceRun sp2)
+    (hT : ∀ k, k < T.length → matchServingsAt ((T ++ sp1 ++ phText ++ sp2 ++ natDigits n).drop k) = none)
+    (hlt : '<' ∉ T ++ sp1 ++ phText ++ sp2 ++ natDigits n)
+    (hphs : ∀ q ∈ phs, isInfixOfStr q (T ++ sp1 ++ phText ++ sp2 ++ natDigits n) = false) :
+    headingInfo true 1 (T ++ sp1 ++ phText ++ sp2 ++ natDigits n) phs =
+      .scalable (unescapeEntities (stripStr (T ++ sp1))) n (T ++ sp1) (phText ++ sp2) := by
+  have h := documented_forms_recognised T sp1 sp2 ph phText n hph hcase hsp1 hsp2 hT
+  have hc : (T ++ sp1 ++ phText ++ sp2 ++ natDigits n).contains '<' = false := by
+    simpa using hlt
+  have hany : phs.any (isInfixOfStr · (T ++ sp1 ++ phText ++ sp2 ++ natDigits n)) = false := by
+    simpa using hphs
+  simp only [headingInfo, hc, hany, h, natOfDigitChars_natDigits]
+  simp
+
+-- non-vacuity
+example : searchServings "Stew  to serve 4".toList = some ("Stew".toList, "  ".toList, "to serve ".toList, "4".toList) := by
+  decide +kernel
+example : searchServings "Food to TO  sErVeS 12 ".toList = some ("Food to".toList, " ".toList, "TO  sErVeS ".toList, "12".toList) := by
+  decide +kernel
+example : searchServings "Stew to serve four".toList = none := by decide +kernel
+example : headingInfo true 1 "Bread FOR 12".toList [] = .scalable "Bread".toList 12 "Bread ".toList "FOR ".toList := by
+  rfl
+-- the side condition on `T` is needed: a trailing "to" belongs to the leftmost match, not to the title
+example : searchServings "Food to serves 4".toList = some ("Food".toList, " ".toList, "to serves ".toList, "4".toList) := by
+  decide +kernel
+example : CaseVariantOf ["to", "serve"] "To  SERVE".toList :=
+  ⟨"To".toList, "  ".toList, "SERVE".toList, rfl, by decide, by decide, by show CaseVariantWord _ _; decide⟩
+example : IsServingSuffix " for 2".toList :=
+  ⟨" ".toList, "for".toList, " ".toList, "2".toList, [], by decide, by decide, by decide,
+    ⟨["for"], by decide, by show CiWord _ _; decide⟩, by decide, by decide, by decide, by decide, by decide⟩
 
 end RG.C18
